@@ -1,2 +1,557 @@
-use crate::msg::MsgScn; use crate::msg_gen::Tier; use crate::rng::Rng;
-pub fn gen_c08(rng: &mut Rng, tier: Tier) -> MsgScn { let mut s = crate::msg_gen::gen_c03(rng, tier); s.check = "C08".into(); s }
+//! Byzantine issuer (DESIGN §5 C08): validly signed but ill-formed payloads / disclosures.
+//! A well-formed credential is built by the harness's own model issuer in *symbolic* form
+//! (`"@i"` = digest of disclosure i), then one or two deviations are applied.
+
+use crate::gen::{self, GenCfg};
+use crate::msg::{Base, Case, CredSpec, Expand, MsgScn, PresSpec};
+use crate::msg_gen::{clock_base, issuers, rand_fmt, Tier};
+use crate::rng::Rng;
+use crate::wire::KbEnc;
+use crate::world::Resolver;
+use serde_json::{json, Map, Value};
+
+/// Symbolic credential: payload + disclosure texts (JSON text of each disclosure array).
+#[derive(Clone, Debug)]
+pub struct Sym {
+    pub payload: Value,
+    pub discs: Vec<Value>,
+}
+
+fn salt(rng: &mut Rng) -> String {
+    let mut b = [0u8; 16];
+    rng.fill(&mut b);
+    crate::model::b64e(&b)
+}
+
+fn decoy(rng: &mut Rng) -> String {
+    let mut b = [0u8; 32];
+    rng.fill(&mut b);
+    crate::model::b64e(&b)
+}
+
+struct Builder<'a> {
+    rng: &'a mut Rng,
+    discs: Vec<Value>,
+    hide_pm: u64,
+    decoys: bool,
+}
+
+impl<'a> Builder<'a> {
+    fn value(&mut self, v: &Value) -> Value {
+        match v {
+            Value::Object(o) => self.object(o),
+            Value::Array(a) => {
+                let mut out = Vec::new();
+                for e in a {
+                    let inner = self.value(e);
+                    if self.rng.chance(self.hide_pm, 1000) {
+                        let i = self.discs.len();
+                        self.discs.push(json!([salt(self.rng), inner]));
+                        out.push(json!({"...": format!("@{}", i)}));
+                    } else {
+                        out.push(inner);
+                    }
+                }
+                Value::Array(out)
+            }
+            _ => v.clone(),
+        }
+    }
+    fn object(&mut self, o: &Map<String, Value>) -> Value {
+        let mut out = Map::new();
+        let mut sd: Vec<Value> = Vec::new();
+        for (k, v) in o {
+            let inner = self.value(v);
+            if self.rng.chance(self.hide_pm, 1000) {
+                let i = self.discs.len();
+                self.discs.push(json!([salt(self.rng), k, inner]));
+                sd.push(json!(format!("@{}", i)));
+            } else {
+                out.insert(k.clone(), inner);
+            }
+        }
+        if self.decoys && self.rng.bool() {
+            for _ in 0..1 + self.rng.usize(2) {
+                sd.push(json!(decoy(self.rng)));
+            }
+        }
+        if !sd.is_empty() {
+            self.rng.shuffle(&mut sd);
+            out.insert("_sd".into(), Value::Array(sd));
+        }
+        Value::Object(out)
+    }
+}
+
+pub fn build_sym(rng: &mut Rng, body: &Map<String, Value>, iss: &str, exp: i64) -> Sym {
+    let hide_pm = 300 + rng.below(600);
+    let decoys = rng.bool();
+    let mut b = Builder { rng, discs: Vec::new(), hide_pm, decoys };
+    let mut p = b.object(body).as_object().cloned().unwrap_or_default();
+    let discs = b.discs;
+    p.insert("_sd_alg".into(), json!("sha-256"));
+    p.insert("iss".into(), json!(iss));
+    p.insert("exp".into(), json!(exp));
+    Sym { payload: Value::Object(p), discs }
+}
+
+// ---- sites ------------------------------------------------------------------------------------
+
+/// Where a container lives: in the payload (None) or inside the value of disclosure i.
+type Home = Option<usize>;
+
+fn root_mut(s: &mut Sym, home: Home) -> &mut Value {
+    match home {
+        None => &mut s.payload,
+        Some(i) => {
+            let n = s.discs[i].as_array().map(|a| a.len()).unwrap_or(0);
+            &mut s.discs[i][n.saturating_sub(1)]
+        }
+    }
+}
+
+fn collect_objects(v: &Value, path: &mut Vec<String>, out: &mut Vec<Vec<String>>) {
+    match v {
+        Value::Object(o) => {
+            out.push(path.clone());
+            for (k, c) in o {
+                if k == "_sd" {
+                    continue;
+                }
+                path.push(k.clone());
+                collect_objects(c, path, out);
+                path.pop();
+            }
+        }
+        Value::Array(a) => {
+            for (i, c) in a.iter().enumerate() {
+                path.push(format!("#{}", i));
+                collect_objects(c, path, out);
+                path.pop();
+            }
+        }
+        _ => {}
+    }
+}
+
+fn collect_arrays(v: &Value, path: &mut Vec<String>, out: &mut Vec<Vec<String>>) {
+    match v {
+        Value::Object(o) => {
+            for (k, c) in o {
+                if k == "_sd" {
+                    continue;
+                }
+                path.push(k.clone());
+                collect_arrays(c, path, out);
+                path.pop();
+            }
+        }
+        Value::Array(a) => {
+            out.push(path.clone());
+            for (i, c) in a.iter().enumerate() {
+                path.push(format!("#{}", i));
+                collect_arrays(c, path, out);
+                path.pop();
+            }
+        }
+        _ => {}
+    }
+}
+
+fn at_mut<'a>(v: &'a mut Value, path: &[String]) -> Option<&'a mut Value> {
+    let mut cur = v;
+    for p in path {
+        cur = if let Some(i) = p.strip_prefix('#') { cur.get_mut(i.parse::<usize>().ok()?)? } else { cur.get_mut(p.as_str())? };
+    }
+    Some(cur)
+}
+
+/// All objects of the credential: (home, path) — objects in the payload and in disclosed values.
+fn all_objects(s: &Sym) -> Vec<(Home, Vec<String>)> {
+    let mut out = Vec::new();
+    let mut v = Vec::new();
+    collect_objects(&s.payload, &mut Vec::new(), &mut v);
+    out.extend(v.into_iter().map(|p| (None, p)));
+    for (i, d) in s.discs.iter().enumerate() {
+        if let Some(a) = d.as_array() {
+            if let Some(val) = a.last() {
+                let mut v = Vec::new();
+                collect_objects(val, &mut Vec::new(), &mut v);
+                out.extend(v.into_iter().map(|p| (Some(i), p)));
+            }
+        }
+    }
+    out
+}
+
+fn all_arrays(s: &Sym) -> Vec<(Home, Vec<String>)> {
+    let mut out = Vec::new();
+    let mut v = Vec::new();
+    collect_arrays(&s.payload, &mut Vec::new(), &mut v);
+    out.extend(v.into_iter().map(|p| (None, p)));
+    for (i, d) in s.discs.iter().enumerate() {
+        if let Some(a) = d.as_array() {
+            if let Some(val) = a.last() {
+                let mut v = Vec::new();
+                collect_arrays(val, &mut Vec::new(), &mut v);
+                out.extend(v.into_iter().map(|p| (Some(i), p)));
+            }
+        }
+    }
+    out
+}
+
+fn obj_at<'a>(s: &'a mut Sym, site: &(Home, Vec<String>)) -> Option<&'a mut Map<String, Value>> {
+    at_mut(root_mut(s, site.0), &site.1)?.as_object_mut()
+}
+
+fn arr_at<'a>(s: &'a mut Sym, site: &(Home, Vec<String>)) -> Option<&'a mut Vec<Value>> {
+    at_mut(root_mut(s, site.0), &site.1)?.as_array_mut()
+}
+
+fn sd_refs(o: &Map<String, Value>) -> Vec<String> {
+    o.get("_sd").and_then(Value::as_array).map(|a| a.iter().filter_map(|x| x.as_str().map(str::to_string)).collect()).unwrap_or_default()
+}
+
+fn push_sd(o: &mut Map<String, Value>, d: Value) {
+    match o.get_mut("_sd") {
+        Some(Value::Array(a)) => a.push(d),
+        _ => {
+            o.insert("_sd".into(), json!([d]));
+        }
+    }
+}
+
+fn is_member_disc(d: &Value) -> bool {
+    d.as_array().map(|a| a.len() == 3).unwrap_or(false)
+}
+
+/// One deviation; returns its label, or None when no applicable site exists.
+pub fn deviate(rng: &mut Rng, s: &mut Sym, which: usize) -> Option<String> {
+    let objs = all_objects(s);
+    let arrs = all_arrays(s);
+    let with_sd: Vec<(Home, Vec<String>)> = objs.iter().filter(|site| obj_at(&mut s.clone(), site).map(|o| !sd_refs(o).is_empty()).unwrap_or(false)).cloned().collect();
+    let member_discs: Vec<usize> = (0..s.discs.len()).filter(|i| is_member_disc(&s.discs[*i])).collect();
+    let elem_discs: Vec<usize> = (0..s.discs.len()).filter(|i| s.discs[*i].as_array().map(|a| a.len() == 2).unwrap_or(false)).collect();
+    match which {
+        // --- MUST reject: duplicated digests
+        0 => {
+            if with_sd.is_empty() {
+                return None;
+            }
+            let site = rng.pick(&with_sd).clone();
+            let o = obj_at(s, &site)?;
+            let r = sd_refs(o);
+            let d = rng.pick(&r).clone();
+            push_sd(o, json!(d));
+            Some("dup_digest_same_sd".into())
+        }
+        1 => {
+            if with_sd.is_empty() || objs.len() < 2 {
+                return None;
+            }
+            let src = rng.pick(&with_sd).clone();
+            let d = rng.pick(&sd_refs(obj_at(s, &src)?)).clone();
+            let others: Vec<_> = objs.iter().filter(|x| **x != src).cloned().collect();
+            let dst = rng.pick(&others).clone();
+            push_sd(obj_at(s, &dst)?, json!(d));
+            Some("dup_digest_across_objects".into())
+        }
+        2 => {
+            if with_sd.is_empty() || arrs.is_empty() {
+                return None;
+            }
+            let src = rng.pick(&with_sd).clone();
+            let d = rng.pick(&sd_refs(obj_at(s, &src)?)).clone();
+            let dst = rng.pick(&arrs).clone();
+            arr_at(s, &dst)?.push(json!({"...": d}));
+            Some("dup_digest_sd_and_array".into())
+        }
+        3 => {
+            // an unmatched (decoy) digest duplicated in two places
+            if objs.len() < 2 {
+                let site = objs.first()?.clone();
+                let d = decoy(rng);
+                let o = obj_at(s, &site)?;
+                push_sd(o, json!(d.clone()));
+                push_sd(o, json!(d));
+            } else {
+                let d = decoy(rng);
+                let a = rng.pick(&objs).clone();
+                let b = rng.pick(&objs).clone();
+                push_sd(obj_at(s, &a)?, json!(d.clone()));
+                push_sd(obj_at(s, &b)?, json!(d));
+            }
+            Some("dup_decoy_digest".into())
+        }
+        4 => {
+            // the same array-element disclosure referenced from two array positions
+            let mut placeholders: Vec<String> = Vec::new();
+            for site in &arrs {
+                if let Some(a) = arr_at(&mut s.clone(), site) {
+                    for e in a.iter() {
+                        if let Some(d) = e.get("...").and_then(Value::as_str) {
+                            placeholders.push(d.to_string());
+                        }
+                    }
+                }
+            }
+            if placeholders.is_empty() {
+                return None;
+            }
+            let d = rng.pick(&placeholders).clone();
+            let dst = rng.pick(&arrs).clone();
+            arr_at(s, &dst)?.push(json!({"...": d}));
+            Some("dup_digest_two_array_positions".into())
+        }
+        // --- MUST reject: arity / shape of referenced disclosures
+        5 => {
+            if member_discs.is_empty() {
+                return None;
+            }
+            let i = *rng.pick(&member_discs);
+            let a = s.discs[i].as_array()?.clone();
+            let n = *rng.pick(&[0usize, 1, 2, 4, 5]);
+            let mut b: Vec<Value> = a.iter().take(n).cloned().collect();
+            while b.len() < n {
+                b.push(json!("extra"));
+            }
+            s.discs[i] = Value::Array(b);
+            Some(format!("member_disclosure_len_{}", n))
+        }
+        6 => {
+            if elem_discs.is_empty() {
+                return None;
+            }
+            let i = *rng.pick(&elem_discs);
+            let a = s.discs[i].as_array()?.clone();
+            let n = *rng.pick(&[0usize, 1, 3, 4]);
+            let mut b: Vec<Value> = a.iter().take(n).cloned().collect();
+            while b.len() < n {
+                b.push(json!("extra"));
+            }
+            s.discs[i] = Value::Array(b);
+            Some(format!("element_disclosure_len_{}", n))
+        }
+        7 => {
+            if s.discs.is_empty() {
+                return None;
+            }
+            let i = rng.usize(s.discs.len());
+            s.discs[i] = rng.pick(&[json!({"a": 1}), json!("str"), json!(7), json!(null), json!(true), json!({})]).clone();
+            Some("disclosure_not_an_array".into())
+        }
+        8 => {
+            if member_discs.is_empty() {
+                return None;
+            }
+            let i = *rng.pick(&member_discs);
+            s.discs[i][1] = rng.pick(&[json!(5), json!(null), json!(["x"]), json!({}), json!(true)]).clone();
+            Some("member_name_not_a_string".into())
+        }
+        9 => {
+            if member_discs.is_empty() {
+                return None;
+            }
+            let i = *rng.pick(&member_discs);
+            s.discs[i][1] = json!(*rng.pick(&["_sd", "..."]));
+            Some("reserved_disclosed_name".into())
+        }
+        10 => {
+            // disclosed name equal to a plain sibling
+            let cands: Vec<(Home, Vec<String>)> = with_sd
+                .iter()
+                .filter(|site| obj_at(&mut s.clone(), site).map(|o| o.keys().any(|k| k != "_sd" && k != "_sd_alg")).unwrap_or(false))
+                .cloned()
+                .collect();
+            if cands.is_empty() {
+                return None;
+            }
+            let site = rng.pick(&cands).clone();
+            let o = obj_at(s, &site)?.clone();
+            let plain: Vec<String> = o.keys().filter(|k| *k != "_sd" && *k != "_sd_alg").cloned().collect();
+            let refs: Vec<usize> = sd_refs(&o).iter().filter_map(|r| r.strip_prefix('@').and_then(|n| n.parse().ok())).filter(|i| member_discs.contains(i)).collect();
+            if refs.is_empty() {
+                return None;
+            }
+            let i = *rng.pick(&refs);
+            s.discs[i][1] = json!(rng.pick(&plain).clone());
+            Some("disclosed_name_collides_with_plain".into())
+        }
+        11 => {
+            // two disclosed members of one object with the same name
+            for site in &with_sd {
+                let o = obj_at(&mut s.clone(), site)?.clone();
+                let refs: Vec<usize> = sd_refs(&o).iter().filter_map(|r| r.strip_prefix('@').and_then(|n| n.parse().ok())).filter(|i| member_discs.contains(i)).collect();
+                if refs.len() >= 2 {
+                    let name = s.discs[refs[0]][1].clone();
+                    s.discs[refs[1]][1] = name;
+                    return Some("two_disclosed_members_same_name".into());
+                }
+            }
+            None
+        }
+        12 => {
+            let v = rng.pick(&[json!("sha-512"), json!("SHA-256"), json!("md5"), json!(7), json!(null), json!([]), json!("sha-256 "), json!("")]).clone();
+            s.payload["_sd_alg"] = v;
+            Some("unsupported_sd_alg".into())
+        }
+        13 => {
+            // member disclosure referenced from an array placeholder / element disclosure from _sd
+            if rng.bool() && !member_discs.is_empty() && !arrs.is_empty() {
+                // a fresh 3-element disclosure referenced from an array
+                let i = s.discs.len();
+                s.discs.push(json!([salt(rng), "name_as_value", "v"]));
+                let dst = rng.pick(&arrs).clone();
+                arr_at(s, &dst)?.push(json!({"...": format!("@{}", i)}));
+                Some("member_disclosure_in_array".into())
+            } else {
+                let i = s.discs.len();
+                s.discs.push(json!([salt(rng), "only-value"]));
+                let dst = rng.pick(&objs).clone();
+                push_sd(obj_at(s, &dst)?, json!(format!("@{}", i)));
+                Some("element_disclosure_in_sd".into())
+            }
+        }
+        // --- don't-care deviations (generated for C07 / C10; the C08 oracle abstains)
+        14 => {
+            let site = rng.pick(&objs).clone();
+            let o = obj_at(s, &site)?;
+            o.insert("_sd".into(), rng.pick(&[json!("x"), json!(null), json!({}), json!(3)]).clone());
+            Some("dc_sd_not_an_array".into())
+        }
+        15 => {
+            let site = rng.pick(&objs).clone();
+            push_sd(obj_at(s, &site)?, rng.pick(&[json!(1), json!(null), json!(["a"]), json!({})]).clone());
+            Some("dc_sd_entry_not_a_string".into())
+        }
+        16 => {
+            if arrs.is_empty() {
+                return None;
+            }
+            let dst = rng.pick(&arrs).clone();
+            let d = decoy(rng);
+            let v = if rng.bool() { json!({"...": d, "extra": 1}) } else { json!({"...": rng.pick(&[json!(1), json!(null), json!([]), json!({})]).clone()}) };
+            arr_at(s, &dst)?.push(v);
+            Some("dc_placeholder_malformed".into())
+        }
+        17 => {
+            let nested: Vec<_> = objs.iter().filter(|x| !(x.0.is_none() && x.1.is_empty())).cloned().collect();
+            if nested.is_empty() {
+                return None;
+            }
+            let site = rng.pick(&nested).clone();
+            obj_at(s, &site)?.insert("_sd_alg".into(), json!("sha-256"));
+            Some("dc_nested_sd_alg".into())
+        }
+        // --- benign variants: the result is the algorithm's result
+        18 => {
+            let i = s.discs.len();
+            s.discs.push(json!([salt(rng), "unreferenced", {"x": 1}]));
+            let _ = i;
+            Some("ok_unreferenced_disclosure".into())
+        }
+        19 => {
+            // nested placement: a fresh hidden member inside a disclosed value
+            if s.discs.is_empty() {
+                return None;
+            }
+            let homes: Vec<_> = objs.iter().filter(|x| x.0.is_some()).cloned().collect();
+            if homes.is_empty() {
+                return None;
+            }
+            let site = rng.pick(&homes).clone();
+            let i = s.discs.len();
+            s.discs.push(json!([salt(rng), "deep_new", [1, {"k": "v"}]]));
+            push_sd(obj_at(s, &site)?, json!(format!("@{}", i)));
+            Some("ok_nested_hidden_member".into())
+        }
+        20 => {
+            let site = rng.pick(&objs).clone();
+            push_sd(obj_at(s, &site)?, json!(decoy(rng)));
+            Some("ok_extra_decoy".into())
+        }
+        _ => {
+            // empty-array disclosure value, explicit nulls etc. (result defined; library may refuse)
+            let i = s.discs.len();
+            s.discs.push(json!([salt(rng), "edge", rng.pick(&[json!(null), json!([]), json!({}), json!(""), json!(0)]).clone()]));
+            let dst = rng.pick(&objs).clone();
+            push_sd(obj_at(s, &dst)?, json!(format!("@{}", i)));
+            Some("ok_edge_value".into())
+        }
+    }
+}
+
+pub const N_DEVIATIONS: usize = 22;
+
+fn to_cred(s: &Sym, issuer: usize) -> CredSpec {
+    CredSpec::Byz { issuer, typ: None, payload: s.payload.clone(), disclosures: s.discs.iter().map(|d| d.to_string()).collect() }
+}
+
+pub fn gen_c08(rng: &mut Rng, tier: Tier) -> MsgScn {
+    let iss = issuers(rng, 1);
+    let now = clock_base(rng);
+    let cfg = GenCfg { hazard_pm: 0, ..GenCfg::small(rng) };
+    let mut body = gen::gen_claims_body(rng, &cfg);
+    // make sure there is at least one object and one array to deviate in
+    if rng.bool() {
+        body.insert("addr".into(), json!({"street": "s", "city": "c", "geo": {"lat": 1, "lon": 2}}));
+    }
+    if rng.bool() {
+        body.insert("list".into(), json!(["a", {"b": 1}, ["c", "d"]]));
+    }
+    let base = build_sym(rng, &body, &iss[0].iss, now + 86400);
+    let mut creds = vec![to_cred(&base, 0)];
+    let mut pres = vec![PresSpec::Direct { cred: 0, picks: (0..base.discs.len()).collect() }];
+    let mut cases = Vec::new();
+    let mk_case = |b: Base, rng: &mut Rng| Case { base: b, faults: vec![], wire: vec![], fmt: rand_fmt(rng), session: None, resolver: Resolver::Directory, kb_enc: KbEnc::Absent, extra: vec![], expand: None, hold_s: 0 };
+    cases.push(mk_case(Base::Pres(0), rng));
+    // well-formed credential: every subset of its disclosures must give the algorithm's result
+    let mut c = mk_case(Base::Cred(0), rng);
+    c.expand = Some(Expand::Subsets { max_n: 6, sample: Some(24), seed: rng.next_u64() });
+    cases.push(c);
+    let per_dev = match tier {
+        Tier::Quick => 1,
+        Tier::Thorough => 3,
+    };
+    // single deviations: every kind, each at a seeded applicable site
+    for which in 0..N_DEVIATIONS {
+        for _ in 0..per_dev {
+            let mut s = base.clone();
+            if deviate(rng, &mut s, which).is_none() {
+                continue;
+            }
+            let ci = creds.len();
+            creds.push(to_cred(&s, 0));
+            let pi = pres.len();
+            pres.push(PresSpec::Direct { cred: ci, picks: (0..s.discs.len()).collect() });
+            cases.push(mk_case(Base::Pres(pi), rng));
+            if rng.chance(1, 3) {
+                // the same deviated credential with a seeded subset of its disclosures
+                let mut c = mk_case(Base::Cred(ci), rng);
+                c.faults.push(crate::faults::Fault::KeepMask(rng.next_u64()));
+                cases.push(c);
+            }
+        }
+    }
+    // pairs of deviations
+    let n_pairs = match tier {
+        Tier::Quick => 6,
+        Tier::Thorough => 30,
+    };
+    for _ in 0..n_pairs {
+        let mut s = base.clone();
+        let a = rng.usize(N_DEVIATIONS);
+        let b = rng.usize(N_DEVIATIONS);
+        if deviate(rng, &mut s, a).is_none() {
+            continue;
+        }
+        let _ = deviate(rng, &mut s, b);
+        let ci = creds.len();
+        creds.push(to_cred(&s, 0));
+        let pi = pres.len();
+        pres.push(PresSpec::Direct { cred: ci, picks: (0..s.discs.len()).collect() });
+        cases.push(mk_case(Base::Pres(pi), rng));
+    }
+    MsgScn { kind: "msg".into(), check: "C08".into(), entropy_seed: rng.next_u64(), clock_base: now, issuers: iss, creds, pres, cases }
+}
